@@ -97,6 +97,22 @@ enum TraversalState {
     RepBranchNum(BranchNumber), // replace current_branch_num and the latest in the root set
 }
 
+// does a cut occur in the condition of an if-then-else at a position where it is
+// executed as part of the condition (not inside call/N, \\+, findall/3, ...)?
+fn if_term_has_cut(term: &Term) -> bool {
+    match term {
+        Term::Literal(_, Literal::Atom(atom!("!"))) => true,
+        Term::Clause(_, atom!(","), terms)
+        | Term::Clause(_, atom!(";"), terms)
+        | Term::Clause(_, atom!("->"), terms)
+            if terms.len() == 2 =>
+        {
+            terms.iter().any(if_term_has_cut)
+        }
+        _ => false,
+    }
+}
+
 #[derive(Debug)]
 pub struct VariableClassifier {
     call_policy: CallPolicy,
@@ -607,18 +623,40 @@ impl VariableClassifier {
                                     false
                                 };
 
+                            // a cut in the condition is local to the condition: it must
+                            // neither cut the clause nor, when the condition then fails,
+                            // remove the choice point leading to the else branch.
+                            let cond_has_cut = if_term_has_cut(&if_term);
+
                             state_stack.push(TraversalState::Term(then_term));
                             state_stack.push(TraversalState::Cut {
                                 var_num: self.var_num,
                                 is_global: false,
                             });
+
+                            if cond_has_cut {
+                                state_stack.push(TraversalState::ResetGlobalCutVarOverride(
+                                    self.global_cut_var_num_override,
+                                ));
+                            }
+
                             state_stack.push(TraversalState::Term(if_term));
+
+                            if cond_has_cut {
+                                state_stack
+                                    .push(TraversalState::OverrideGlobalCutVar(self.var_num + 1));
+                                state_stack.push(TraversalState::GetCutPoint {
+                                    var_num: self.var_num + 1,
+                                    prev_b: false,
+                                });
+                            }
+
                             state_stack.push(TraversalState::GetCutPoint {
                                 var_num: self.var_num,
                                 prev_b,
                             });
 
-                            self.var_num += 1;
+                            self.var_num += if cond_has_cut { 2 } else { 1 };
                         }
                         Term::Clause(_, atom!("\\+"), mut terms) if terms.len() == 1 => {
                             let not_term = terms.pop().unwrap();
